@@ -705,14 +705,21 @@ pub fn refresh(
 ) -> Result<(), Error> {
     verify(msk, usk)?;
 
-    let usk_id = take(&mut usk.id);
-    let new_id = msk.tsk.refresh_id(rng, usk_id)?;
+    // The USK is only modified once every fallible step succeeded: a failed
+    // refresh must leave both keys untouched.
+    let new_id = msk.tsk.refresh_id(rng, usk.id.clone())?;
 
-    let usk_rights = take(&mut usk.secrets);
+    let usk_rights = usk.secrets.clone();
     let new_rights = if keep_old_rights {
         refresh_coordinate_keys(msk, usk_rights)
     } else {
-        msk.get_latest_right_sk(usk_rights.into_keys())
+        // As when keeping old secrets, rights that do not belong to the MSK
+        // anymore are removed from the USK.
+        let live_rights = usk_rights
+            .into_keys()
+            .filter(|r| msk.secrets.contains_key(r))
+            .collect::<Vec<_>>();
+        msk.get_latest_right_sk(live_rights.into_iter())
             .collect::<Result<RevisionVec<Right, RightSecretKey>, Error>>()?
     };
 
